@@ -20,7 +20,7 @@ ID = 'C18'
 LEVEL = 'exploration'
 N = {'quick': 24000, 'thorough': 600000}
 RULE = ('generated elections (all rules x accepted options), candidate names N1.. (unambiguous in every rendering); audit-trail invariants on '
-        'the record, and report / dump / JSON parsed and compared with the record on every status, tally, quota and total; non-trivial = >= 1 '
+        'the record, and report / dump / JSON parsed and compared with the record on every status, tally, quota and total; the record header as Election.record() offers it before any rendering; every rendering produced twice; non-trivial = >= 1 '
         'election and >= 1 exclusion and >= 1 transfer; distinct = distinct case JSON')
 TECHNIQUE = 'property-based testing: audit-trail invariants plus three independently written parsers (report, dump, JSON) cross-checked with the record'
 LEVEL_TEXT = 'every action and every rendered line of generated counts is compared with the record through an independent printer'
